@@ -9,9 +9,10 @@
 (*  - ImplTrace.tla: the scan/plan part (ScanAll, pure) is compared with    *)
 (*    the dirty/want state the real DependencyScan/Plan compute on every    *)
 (*    invocation recorded by the harness (strict conformance, Impl level).  *)
-(* Not modelled here: dyndep surgery, validations' extra roots beyond the   *)
-(* scan queue, critical-path order of the ready queue (any ready edge may   *)
-(* start), the jobserver, dry-run.                                          *)
+(* Not modelled here: dyndep surgery, dry-run.  The critical-path weights   *)
+(* of Plan::ComputeCriticalPath are CritW below; NinjaImplMC uses them as   *)
+(* the order of the ready queue and of the pools' delayed sets when its     *)
+(* constant Prio is TRUE (any ready statement may start when it is FALSE).  *)
 (***************************************************************************)
 EXTENDS NinjaRef
 
@@ -160,14 +161,40 @@ AddTargets(env, acc, targets, k) ==
            Drain(s, fuel) == IF s.vq = <<>> \/ fuel = 0 THEN s
                              ELSE LET v == Head(s.vq) IN Drain(VisitNode(env, [s EXCEPT !.vq = Tail(@), !.vseen = Append(@, v)], v, Len(env.g.stmts) + 2), fuel - 1)
            st2 == Drain(st1, 4 * (Len(env.g.stmts) + 1))
-           w1 == IF Prod(env.g, t) = 0 \/ Prod(env.g, t) \in st2.notrdy THEN AddSub(env, st2, acc.w, t, Len(env.g.stmts) + 2) ELSE acc.w
+           planned == Prod(env.g, t) = 0 \/ Prod(env.g, t) \in st2.notrdy
+           w1 == IF planned THEN AddSub(env, st2, acc.w, t, Len(env.g.stmts) + 2) ELSE acc.w
            newv == SubSeq(st2.vseen, vq0 + 1, Len(st2.vseen))
+           \* Plan::targets_: the target if it was planned, then the validation nodes whose statement has work
+           pt1 == (IF planned THEN <<t>> ELSE <<>>) \o SelectSeq(newv, LAMBDA v : Prod(env.g, v) # 0 /\ Prod(env.g, v) \in st2.notrdy)
            RECURSIVE AddV(_, _)
            AddV(w, j) == IF j > Len(newv) THEN w
                          ELSE LET p == Prod(env.g, newv[j]) IN
                               AddV(IF p # 0 /\ p \in st2.notrdy THEN AddSub(env, st2, w, newv[j], Len(env.g.stmts) + 2) ELSE w, j + 1)
-       IN AddTargets(env, [st |-> st2, w |-> AddV(w1, 1)], targets, k + 1)
+       IN AddTargets(env, [st |-> st2, w |-> AddV(w1, 1), pt |-> acc.pt \o pt1], targets, k + 1)
 
 EmptyW == [x \in {} |-> "none"]
-ScanAll(env, targets) == AddTargets(env, [st |-> Scan0(env), w |-> EmptyW], targets, 1)
+ScanAll(env, targets) == AddTargets(env, [st |-> Scan0(env), w |-> EmptyW, pt |-> <<>>], targets, 1)
+
+(***************************************************************************)
+(* Plan::ComputeCriticalPath (build.cc:480-566): every statement reachable  *)
+(* from the plan's targets through the input lists as they are after the    *)
+(* scan (recorded dependencies spliced in, validations not followed) gets   *)
+(* the weight of the heaviest chain of commands from it to a target; a      *)
+(* phony statement weighs 0, a command 1; statements that were not reached  *)
+(* keep the initial -1.  EdgePriorityLess (graph.h:448): larger weight      *)
+(* first, then the statement that comes first in the manifest.              *)
+(***************************************************************************)
+RECURSIVE ReachUp(_, _, _, _)
+ReachUp(env, st, S, fuel) ==
+  LET N == S \cup (UNION {{Prod(env.g, AllIn(st, c)[k]) : k \in DOMAIN AllIn(st, c)} : c \in S} \ {0})
+  IN IF N = S \/ fuel = 0 THEN S ELSE ReachUp(env, st, N, fuel - 1)
+CritW(env, st, pts) ==
+  LET V == ReachUp(env, st, {Prod(env.g, pts[k]) : k \in DOMAIN pts} \ {0}, Len(env.g.stmts) + 1)
+      H(e) == IF St(env.g, e).phony THEN 0 ELSE 1
+      UsersIn(e) == {c \in V : \E k \in DOMAIN AllIn(st, c) : Prod(env.g, AllIn(st, c)[k]) = e}
+      RECURSIVE It(_, _)
+      It(w, n) == IF n = 0 THEN w ELSE It([e \in Ids(env.g) |-> IF e \in V THEN H(e) + MaxOf({w[c] : c \in UsersIn(e)}) ELSE 0 - 1], n - 1)
+  IN It([e \in Ids(env.g) |-> IF e \in V THEN H(e) ELSE 0 - 1], Len(env.g.stmts))
+Better(prio, i, j) == prio[i] > prio[j] \/ (prio[i] = prio[j] /\ i <= j)
+TopOf(prio, S) == CHOOSE i \in S : \A j \in S : Better(prio, i, j)
 =============================================================================
